@@ -181,6 +181,41 @@ class Ctx:
                 self.log(f"constants regenerated: {target.name}")
         return ok
 
+    def second_chance(self):
+        """A proof obligation failed and some translator regenerated constants that differ from the reference translation of the
+        pinned tree.  Either the source really changed (then the current code no longer behaves like the reference model and the
+        correspondence run will show it) or the translator misread a rewritten source.  Re-check the theorems on the reference
+        constants and let the correspondence run decide, exactly as for an unreadable source (DESIGN 12.7)."""
+        if os.environ.get("VERIF_STRICT_TRANSLATOR"):
+            return False
+        changed = []
+        for name in getattr(self.mod, "CONSTS", []):
+            target = GEN / f"Consts{name.capitalize()}.v"
+            ref = REF / target.name
+            if ref.exists() and target.exists() and target.read_text() != ref.read_text():
+                changed.append((name, target, ref))
+        proof_breaks = [b for b in self.broken if b[0] == "proof"]
+        if not changed or not proof_breaks:
+            return False
+        regenerated = {name: target.read_text() for name, target, _ in changed}
+        for name, target, ref in changed:
+            target.write_text(ref.read_text())
+        saved = list(self.broken)
+        self.broken = [b for b in saved if b[0] != "proof"]
+        ok = self.step_coq()
+        if ok:
+            what = ", ".join(b[1] for b in proof_breaks)[:300]
+            for name, _, _ in changed:
+                self.degraded.append((f"consts.{name}", f"the regenerated constants differ from the reference translation and {what} no longer "
+                                      f"proved on them; theorems re-checked on the reference constants"))
+            self.log("proofs failed on the regenerated constants (" + what + ") but hold on the reference constants: the correspondence run decides")
+            return True
+        # the theorems do not hold on the reference constants either: not a translator matter; report the first failure
+        for name, target, _ in changed:
+            target.write_text(regenerated[name])
+        self.broken = saved
+        return False
+
     # ---------------------------------------------------------------- step 2: Coq
     def make_project(self):
         vs = sorted(p.name for p in COQ.glob("*.v")) + sorted("gen/" + p.name for p in GEN.glob("*.v"))
@@ -380,6 +415,8 @@ class Ctx:
     def violation(self, key, text, replay):
         """A concrete input on which the REAL code breaks the property."""
         self.violations.append((key, text, replay))
+        if os.environ.get("VERIF_DEBUG_VIOLATIONS"):
+            self.log(f"violation {key}: {json.dumps(replay, default=str)[:600]}")
 
     def tie_broken(self, name, detail):
         """Model and implementation disagree (or the translator cannot read the source)."""
